@@ -16,6 +16,7 @@ import (
 
 	"github.com/mgtv-tech/redis-GunYu/pkg/filter"
 	"github.com/mgtv-tech/redis-GunYu/pkg/redis"
+	"github.com/mgtv-tech/redis-GunYu/pkg/redis/checkpoint"
 	cluster "github.com/mgtv-tech/redis-GunYu/pkg/redis/client/cluster"
 
 	"verifharness/pbt"
@@ -81,6 +82,11 @@ func run(c Case) []failure {
 	if got, err := cluster.GetSlot(c.Key); err != nil || got != want {
 		fs = append(fs, failure{"GetSlot-bytes-" + sub, fmt.Sprintf("cluster.GetSlot([]byte %q)=%d,%v, HASH_SLOT=%d", c.Key, got, err, want)})
 	}
+	// the bookkeeping keys of a bidirectional unit on this key (tag chosen from the tool's own slot) are co-located with it
+	mk := checkpoint.BisyncMarkerKey("redis-gunyu-checkpoint", checkpoint.BisyncSlotTag(redis.KeyToSlot(string(c.Key))))
+	if got := hashslot.Slot([]byte(mk)); got != want {
+		fs = append(fs, failure{"marker-not-colocated-" + sub, fmt.Sprintf("marker key %q of a unit on key %q has HASH_SLOT %d, the key %d", mk, c.Key, got, want)})
+	}
 	// slot filter decision for singleton ranges
 	in := filter.NewRangeList()
 	in.InsertSlotInList(want, want)
@@ -145,6 +151,9 @@ func TestC11Replay(t *testing.T) {
 	v, err := pbt.LoadReplay()
 	if err != nil {
 		t.Fatal(err)
+	}
+	if replayCo(t, v.Case) {
+		return
 	}
 	var c Case
 	if err := json.Unmarshal(v.Case, &c); err != nil {
